@@ -22,34 +22,43 @@ from harness.core import err_name, run_oracle_cases
 
 PROP = 'C14'
 PROOF_MODULES = ['Ladybug.Props.C14']
-GREP_MODULES = ['Ladybug.Model.Heap', 'Ladybug.Proofs.C14Lemmas', 'Ladybug.Proofs.C14Spec', 'Ladybug.Proofs.C14Any', 'Ladybug.Drv.C14', 'Ladybug.DrvCore',
+GREP_MODULES = ['Ladybug.Model.Heap', 'Ladybug.Proofs.C14Lemmas', 'Ladybug.Proofs.C14Spec', 'Ladybug.Proofs.C14Any', 'Ladybug.Proofs.C14Comp', 'Ladybug.Proofs.C14Epw', 'Ladybug.Drv.C14', 'Ladybug.DrvCore',
                 'Ladybug.Py']
 RULE = ('correspondence: random histories (1-3 source collections of the 5 classes and their immutable '
-        'twins; up to 8 steps drawn from 20 deriving operations, WindRose construction and 8 mutators; '
-        '~10 % malformed arguments); after every step the model must predict the result status, the '
-        'sharing signature (which of header / metadata dict / analysis period / values list of the result '
-        'are the same objects as those of any live collection) and the snapshot of every live object. '
-        'oracle: derive x mutator x side sweeps and random histories on the real objects, Wea / EPW / '
-        'chart constructors and exports; non-trivial = the deriving call returned an object; distinct = '
-        'distinct (operation, class, mutability, mutator, side) or distinct history')
+        'twins, Temperature or the energy family; up to 8 steps drawn from 25 deriving operations, WindRose '
+        'construction, 10 mutators, lists the caller holds (created, passed to constructors / the values '
+        'setter / get_aligned_collection / compute_function_aligned, edited), Wea objects (from_dict, '
+        'duplicate, filter_by_*, derived collections, the aliasing constructor, edits of their collections '
+        'and metadata) and separate histories around an EPW object (unit conversion, to_file_string and '
+        'to_wea succeeding and failing, edits); ~10 % malformed arguments); after every step the model must '
+        'predict the result status, the sharing signature (which of header / metadata dict / nested metadata '
+        'lists / analysis period / values list / Location of the result are the same objects as those of '
+        'any live object) and the snapshot of every live object. oracle: derive x mutator x side sweeps and '
+        'random histories on the real objects, Wea / EPW / chart constructors and exports, from_dict '
+        'arguments; non-trivial = the step returned an object or edited one; distinct = distinct history '
+        'or (operation, class, mutability, mutator, side)')
 TRUSTED_BASE = [
     'hand model Model/Heap.lean of which cells each API operation allocates or aliases (tied by the '
-    'sharing-signature correspondence only; operations not in the model list are oracle-only: '
-    'normalize/aggregate_by_area, to_time_aggregated/rate_of_change, Wea, EPW, HourlyPlot, MonthlyChart, '
-    'from_dict)',
-    'values / datetimes / periods of aggregation, validation and interpolation results are payload taken '
-    'from the implementation (C03/C13 own them); unit conversion modelled for Temperature C/F/K only and '
-    'compared with 1e-9 relative tolerance',
-    'metadata values are opaque in the model (nested-list edits are checked by the oracle only)',
-    'identity of tuples (immutable values) is not treated as shared state',
+    'sharing-signature correspondence only; operations not in the model list are oracle-only: HourlyPlot, '
+    'MonthlyChart, collection from_dict, Wea exports and the annual Wea constructors)',
+    'values / datetimes / periods of aggregation, validation, interpolation and of collections derived '
+    'from a Wea / EPW.sky_temperature are payload taken from the implementation; unit conversion modelled '
+    'for Temperature C/F/K only (energy family: base units, area/time factors) and compared with 1e-9 '
+    'relative tolerance',
+    'EPW: the two temperature fields of the 35 are modelled; the failing export is reached by truncating '
+    'a value list through a private attribute',
+    'identity of tuples (immutable values) is not treated as shared state; Location and AnalysisPeriod '
+    'objects are treated as never edited',
 ]
 ASSUMPTIONS = ['AnalysisPeriod objects have no public setters (sharing one is not shared mutable state)',
-               'DataType objects are treated as immutable values']
+               'DataType objects are treated as immutable values',
+               'no modelled operation edits a Location (a filtered Wea looks at the Location of its source)']
 
 UNITS = ['C', 'F', 'K', 'X', 'kWh', 'kWh/m2', 'W', 'W/m2']
 DTYPES = {'Temperature': 0, 'Energy': 1, 'EnergyIntensity': 2, 'Power': 3, 'EnergyFlux': 4,
           'DirectNormalIrradiance': 10, 'DiffuseHorizontalIrradiance': 11, 'GlobalHorizontalIrradiance': 12,
-          'DirectHorizontalIrradiance': 13, 'Irradiance': 14}
+          'DirectHorizontalIrradiance': 13, 'Irradiance': 14,
+          'DryBulbTemperature': 0, 'DewPointTemperature': 0, 'SkyTemperature': 0}
 BASE_UNIT = {'Temperature': 'C', 'Energy': 'kWh', 'EnergyIntensity': 'kWh/m2', 'Power': 'W', 'EnergyFlux': 'W/m2'}
 CLS = {'HourlyDiscontinuous': 'hd', 'HourlyContinuous': 'hc', 'Daily': 'daily', 'Monthly': 'monthly',
        'MonthlyPerHour': 'mph'}
@@ -148,6 +157,8 @@ def _kind(o):
         return 'coll'
     if isinstance(o, Wea):
         return 'wea'
+    if type(o).__name__ == 'EPW':
+        return 'epw'
     if isinstance(o, list) and any(isinstance(x, BaseCollection) for x in o):
         return 'args'
     return 'list'
@@ -168,6 +179,11 @@ def obs_str(c, live=()):
             c.timestep, _b(c.is_leap_year), _b(c.enforce_on_hour), ','.join('%d=%s' % kv for kv in md),
             ';'.join(_loc_tokens(c.location)), obs_str(c.direct_normal_irradiance),
             obs_str(c.diffuse_horizontal_irradiance))
+    if kind == 'epw':
+        md = sorted((MKEYS.get(k, 99), _mv_any(v)) for k, v in c.metadata.items())
+        return 'comp1 T:%s M:%s L: { %s } { %s }' % (
+            _b(c.is_ip), ','.join('%d=%s' % kv for kv in md), obs_str(c.dry_bulb_temperature),
+            obs_str(c.dew_point_temperature))
     if kind == 'args':
         items = []
         for x in c:
@@ -220,10 +236,16 @@ def _share_sig(r, o):
         return _share_coll(r, o)
     if kind == 'list':
         return 'v' if r._values is o else ''
-    if kind == 'wea':
-        return '/'.join(_share_coll(r, m) for m in (o.direct_normal_irradiance, o.diffuse_horizontal_irradiance)) \
+    if kind in ('wea', 'epw'):
+        return '/'.join(_share_coll(r, m) for m in _members(o)) \
             + ('M' if r.header.metadata is o.metadata else '')
     return ''
+
+
+def _members(o):
+    if _kind(o) == 'wea':
+        return (o.direct_normal_irradiance, o.diffuse_horizontal_irradiance)
+    return (o.dry_bulb_temperature, o.dew_point_temperature)
 
 
 def _only_seps(s):
@@ -242,10 +264,10 @@ def share_str(live, r):
 
 def share_str_wea(live, w):
     parts = []
-    mem = (w.direct_normal_irradiance, w.diffuse_horizontal_irradiance)
+    mem = _members(w)
     for j, o in enumerate(live):
         s = '|'.join(_share_sig(m, o) for m in mem)
-        if _kind(o) == 'wea' and o.location is w.location:
+        if _kind(o) == 'wea' and _kind(w) == 'wea' and o.location is w.location:
             s += 'L'
         if not _only_seps(s):
             parts.append('%d:%s' % (j, s))
@@ -263,6 +285,9 @@ def snapshot(c):
         return ('wea', snapshot(c.direct_normal_irradiance), snapshot(c.diffuse_horizontal_irradiance),
                 json.dumps(c.metadata, sort_keys=True, default=str), tuple(_loc_tokens(c.location)),
                 (c.timestep, c.is_leap_year, c.enforce_on_hour))
+    if kind == 'epw':
+        return ('epw', snapshot(c.dry_bulb_temperature), snapshot(c.dew_point_temperature),
+                json.dumps(c.metadata, sort_keys=True, default=str), c.is_ip)
     h = c.header
     return (type(c).__name__, tuple(c.values), h.unit, type(h.data_type).__name__,
             tuple(_ap_tokens(h.analysis_period)), json.dumps(h.metadata, sort_keys=True, default=str),
@@ -425,6 +450,8 @@ def apply_mutator(c, op, a):
         c.header.metadata[a['k']].append(a['x'])
     elif op == 'cull_inplace':
         c.convert_to_culled_timestep(a['ts'])
+    elif op == 'truncate':                      # harness only: reach the failing path of the EPW export
+        del c._values[a['n']:]
     elif op == 'values_append':                 # `coll.values` must not hand out the internal list
         c.values.append(a['x'])
     else:
@@ -769,6 +796,8 @@ def cmd_mutator(on, op, a):
         return head + 'meta_replace ' + _meta_line(a['m'])
     if op == 'cull_inplace':
         return head + 'cull_inplace %d' % a['ts']
+    if op == 'truncate':
+        return head + 'truncate %d' % a['n']
     raise ValueError(op)
 
 
@@ -782,6 +811,8 @@ def _info(c, live=()):
     if kind == 'args':
         first = [i for i, o in enumerate(live) if o is c[0]]
         return {'kind': 'args', 'first': first[0] if first else -1}
+    if kind == 'epw':
+        return {'kind': 'epw', 'n': len(c.dry_bulb_temperature.values), 'meta': {}}
     if kind == 'wea':
         d = c.direct_normal_irradiance
         return {'kind': 'wea', 'cls': CLS[d._collection_type], 'n': len(d.values),
@@ -821,7 +852,21 @@ def _wea_from_dict(st):
 
 
 def _wea_member(w, k):
-    return w.direct_normal_irradiance if k == 0 else w.diffuse_horizontal_irradiance
+    return _members(w)[k]
+
+
+ANNUAL_AP = [1, 1, 0, 12, 31, 23, 1, 0]
+ANNUAL_DTS = [h * 60 for h in range(8760)]
+
+
+def sky_temperature_repaired():
+    """Does EPW.sky_temperature give its result an own metadata dict?  (Proposed repair
+    fixes/C14_epw_sky_temperature_metadata.patch; until it is committed the model's `epwSky` – which
+    describes the repaired behaviour – is not compared, the oracle reports the defect.)"""
+    from ladybug.epw import EPW
+    e = EPW.from_missing_values()
+    e.metadata['probe'] = 1
+    return e.sky_temperature.header.metadata is not e.metadata
 
 
 def exec_step(live, st):
@@ -922,6 +967,46 @@ def exec_step(live, st):
                                                    _lst(r.values, _frac))))
             live.append(r)
         return out
+    if k == 'en':
+        from ladybug.epw import EPW
+        e = EPW.from_missing_values()
+        e.dry_bulb_temperature.values = list(st['db'])
+        e.dew_point_temperature.values = list(st['dp'])
+        status = 'ok %d %s' % (len(live), share_str_wea(live, e))
+        live.append(e)
+        return [(status, 'en %s %s %s %s' % (_lst(ANNUAL_AP), _lst(ANNUAL_DTS), _lst(st['db'], _frac),
+                                           _lst(st['dp'], _frac)))]
+    if k == 'ec':
+        e = live[st['on']]
+        if st['ip']:
+            e.convert_to_ip()
+        else:
+            e.convert_to_si()
+        return [('ok', 'ec %d %s' % (st['on'], _b(st['ip'])))]
+    if k == 'ef':
+        try:
+            live[st['on']].to_file_string()
+            status = 'ok'
+        except Exception as ex:
+            status = 'err:' + err_name(ex)
+        return [(status, 'ef %d' % st['on'])]
+    if k == 'ew':
+        tmp = tempfile.mkdtemp()
+        try:
+            live[st['on']].to_wea(os.path.join(tmp, 'x.wea'), hoys=list(st['hoys']))
+            status = 'ok'
+        except Exception as ex:
+            status = 'err:' + err_name(ex)
+        finally:
+            shutil.rmtree(tmp, ignore_errors=True)
+        return [(status, 'ew %d %s' % (st['on'], _lst(st['hoys'])))]
+    if k == 'es':
+        r = live[st['on']].sky_temperature
+        status = 'ok %d %s' % (len(live), share_str(live, r))
+        live.append(r)
+        return [(status, 'es %d %s %s %s' % (st['on'], _lst(_ap_tokens(r.header.analysis_period)),
+                                            _lst([_dt_token('hc', d) for d in r.datetimes]),
+                                            _lst(r.values, _frac)))]
     if k == 'wm':
         a = dict(st['args'])
         a['_live'] = live
@@ -1065,6 +1150,33 @@ def gen_step(rng, infos, malformed, alias_ok=False):
         return {'k': 'd', 'on': on, 'op': op, 'args': a}
     on, op, a = gen_mutator(rng, infos, malformed)
     return {'k': 'm', 'on': on, 'op': op, 'args': a}
+
+
+def epw_history(rng, sky_ok):
+    """A short history around one EPW object (the value lists are a full year long)."""
+    base = [rng.randint(-20, 35) for _ in range(24)]
+    db = [base[i % 24] + (i // 24) % 7 for i in range(8760)]
+    dp = [base[(i + 5) % 24] - 3 for i in range(8760)]
+    steps = [{'k': 'en', 'db': db, 'dp': dp}]
+    for _ in range(rng.randint(2, 5)):
+        r = rng.random()
+        if r < 0.2:
+            steps.append({'k': 'ec', 'on': 0, 'ip': rng.random() < 0.6})
+        elif r < 0.45:
+            steps.append({'k': 'ef', 'on': 0})
+        elif r < 0.6:
+            steps.append({'k': 'ew', 'on': 0, 'hoys': rng.choice([[0, 12, 8759], [5], [3, 9000]])})
+        elif r < 0.7:
+            steps.append({'k': 'wm', 'on': 0, 'mk': rng.randrange(2), 'op': 'truncate',
+                          'args': {'n': rng.choice([100, 8000])}})
+        elif r < 0.8:
+            steps.append({'k': 'wm', 'on': 0, 'mk': rng.randrange(2), 'op': rng.choice(['set_item', 'meta_set']),
+                          'args': {'i': rng.randrange(50), 'x': 0.5, 'k': 'k1', 'v': rng.choice([4, [1]])}})
+        elif r < 0.9:
+            steps.append({'k': 'ws', 'on': 0, 'key': rng.choice(['city', 'k1']), 'v': rng.choice(['X', 3])})
+        elif sky_ok:
+            steps.append({'k': 'es', 'on': 0})
+    return steps
 
 
 def run_steps(steps, ctx=None):
@@ -1248,12 +1360,25 @@ def _correspondence(ctx):
         lines.append(line)
         traces.append(tr)
         hists.append(h)
-    n = ctx.n(1500, 30000)
+    n = ctx.n(1300, 30000)
     for _ in range(n):
         line, tr, h = run_history(rng, ctx)
         lines.append(line)
         traces.append(tr)
         hists.append(h)
+    sky_ok = sky_temperature_repaired()
+    if not sky_ok:
+        ctx.notes.append('EPW.sky_temperature still shares the EPW metadata dict: epwSky not compared '
+                         '(known finding C14-epw-sky-temperature-metadata)')
+    for _ in range(ctx.n(2, 20)):
+        steps = epw_history(rng, sky_ok)
+        line, tr, kept = run_steps(steps)
+        lines.append(line)
+        traces.append(tr)
+        hists.append({'steps': [dict(st, db='...', dp='...') if st['k'] == 'en' else st for st in kept]})
+        ctx.count('epw_histories')
+        for st in kept:
+            ctx.count('step:' + st['k'])
     outs = ctx.driver().run(lines)
     for line, mo, io, h in zip(lines, outs, traces, hists):
         ctx.compared += 1
@@ -1567,6 +1692,36 @@ def check_misc(inp):
                     return {'required': 'Wea unchanged by %s on an object derived by %s' % (op, what),
                             'observed': 'changed', 'sig': dict(sig, mutator=op)}
         return None
+    if what == 'epw_sky_temperature':
+        from ladybug.epw import EPW
+        e = EPW.from_missing_values()
+        e.metadata['source'] = 'station'
+        before = json.dumps(e.metadata, sort_keys=True)
+        s = e.sky_temperature
+        s.header.metadata['edited'] = 1
+        if json.dumps(e.metadata, sort_keys=True) != before:
+            return {'required': 'EPW.metadata unchanged by an edit of sky_temperature.header.metadata',
+                    'observed': e.metadata, 'sig': sig}
+        return None
+    if what in ('epw_from_dict_args', 'location_from_dict_args'):
+        # a dictionary handed to from_dict is the caller's object
+        if what == 'location_from_dict_args':
+            from ladybug.location import Location
+            d = {'type': 'Location', 'city': 'Town', 'latitude': 10.0}
+            before = copy.deepcopy(d)
+            Location.from_dict(d)
+        else:
+            from ladybug.epw import EPW
+            full = EPW.from_missing_values().to_dict()
+            d = {'type': 'EPW', 'location': copy.deepcopy(full['location']),
+                 'data_collections': full['data_collections']}
+            before = dict((k, (len(v) if isinstance(v, list) else copy.deepcopy(v))) for k, v in d.items())
+            EPW.from_dict(d)
+            d = dict((k, (len(v) if isinstance(v, list) else v)) for k, v in d.items())
+        if d != before:
+            return {'required': 'argument dictionary unchanged (keys %s)' % sorted(before),
+                    'observed': 'keys now %s' % sorted(d), 'sig': sig}
+        return None
     if what.startswith('epw_'):
         ip = bool(inp.get('ip'))
         e = _epw(ip)
@@ -1717,6 +1872,9 @@ FIXED_CORPUS = [
     ('misc', {'what': 'immutable_metadata_route', 'mutator': 'meta_set'}),
     ('misc', {'what': 'immutable_metadata_route', 'mutator': 'meta_replace'}),
     ('misc', {'what': 'immutable_metadata_route', 'mutator': 'meta_set', 'cls': 'monthly'}),
+    ('misc', {'what': 'epw_sky_temperature'}),
+    ('misc', {'what': 'location_from_dict_args'}),
+    ('misc', {'what': 'epw_from_dict_args'}),
 ]
 
 
@@ -1744,16 +1902,18 @@ def oracle(ctx):
         run_oracle_cases(ctx, _oracle_cases(ctx), check_case)
 
 
-LEVEL_TEXT = ('Machine-checked Lean 4 theorems over an executable heap model (Header / metadata dict / values list '
-              '/ analysis period / collection cells) of the data-collection API: frame theorem, separation '
-              'preserved by every deriving operation, non-interference for every history of deriving '
-              'operations, WindRose constructions and mutators (no bound on length), immutability, argument '
-              'hygiene; the model is tied to the code by comparing, for every step of random histories, the '
+LEVEL_TEXT = ('Machine-checked Lean 4 theorems over an executable heap model (Header / metadata dict with nested list '
+              'cells / values list / analysis period / Location / collection / composite cells) of the '
+              'data-collection, Wea and EPW API: frame theorem, separation preserved by every deriving operation '
+              '(deep copy of metadata included), non-interference for every history of building, deriving, '
+              'WindRose / Wea / EPW steps, mutators and edits of caller-held lists (no bound on length), argument '
+              'hygiene incl. lists passed by the caller, EPW exports restore the object also on failure, '
+              'immutability; the model is tied to the code by comparing, for every step of random histories, the '
               'sharing signature (which sub-objects are the same Python objects) and the snapshot of every live '
               'object; the property itself is evaluated on the real objects by derive x mutator x side sweeps.')
 LEVEL_NOTE = ('Trusted: Lean kernel; axioms propext/Classical.choice/Quot.sound only; the hand model of which cells '
               'each operation allocates/aliases (agreement on generated histories only); payload values of '
-              'aggregation/validation/interpolation; Wea/EPW/chart/from_dict operations are oracle-only. The model '
-              'describes the tree with fixes/C14_*.patch applied.')
-TECHNIQUE = ('Lean 4 proof (heap separation invariant, frame + preservation lemmas, induction over the operation '
-             'list) about a model tied to the code by sharing-signature correspondence')
+              'aggregation/validation/interpolation/Wea-derived collections; two of the 35 EPW fields modelled; '
+              'charts, collection from_dict and Wea file exports are oracle-only.')
+TECHNIQUE = ('Lean 4 proof (generic footprint systems: heap separation invariant, frame + preservation lemmas, '
+             'induction over the operation list) about a model tied to the code by sharing-signature correspondence')
